@@ -2617,6 +2617,73 @@ class _Ops:
         A = m[:, :D, :D]
         return float(torch.linalg.cond(A).max())
 
+    def _roundtrip_float64(self, T: H, I: H, x0: Tensor, cond: float, desc: str, p) -> Optional[Violation]:
+        """"To floating-point accuracy" also means the accuracy of float64 when the model is held in float64: a deep copy
+        of the pair (taken together, so that links between the two survive) is converted with ``.double()`` and round-tripped
+        on double points. Only pairs whose elementary members all hold their own tensors, or are linked to a member of the
+        pair, take part (the simulator's callables produce float32)."""
+        members = list(walk_elems(T.obj)) + list(walk_elems(I.obj))
+        ids = {id(m) for m in members}
+        for m in members:
+            k = kind_of(m)
+            if k in ("P", "B"):
+                continue
+            if k != "L":
+                return None
+            tgt, depth = m.params, 0
+            while isinstance(tgt, SpatialTransform) and kind_of(tgt) == "L" and depth < 8:
+                if id(tgt) not in ids:
+                    return None
+                tgt, depth = tgt.params, depth + 1
+            if id(tgt) not in ids or kind_of(tgt) not in ("P", "B"):
+                return None
+        if isinstance(T.obj, GenericSpatialTransform) or isinstance(I.obj, GenericSpatialTransform):
+            return None
+        try:
+            with torch.no_grad():
+                T2, I2 = _copy.deepcopy((T.obj, I.obj))
+                T2.double()
+                I2.double()
+        except Exception:
+            self.c["probes"]["rt64_copy_failed"] += 1
+            return None
+        for m in list(walk_elems(T2)) + list(walk_elems(I2)):
+            if isinstance(m.params, Tensor) and m.params.dtype != torch.float64:
+                # a tensor handed to data_() of a transform without parameters is a plain attribute, which Module.double()
+                # does not reach (deepali as it is, outside C07): this is not a float64 model
+                self.c["probes"]["rt64_not_converted"] += 1
+                return None
+        x = x0.double()
+
+        def both():
+            with torch.no_grad():
+                T2(x)  # one warm-up per direction settles the caches of linked members
+                y_ = T2(x)
+                z_ = I2(y_)
+                I2(x)
+                y2_ = I2(x)
+                z2_ = T2(y2_)
+            return y_, z_, y2_, z2_
+
+        st, r = self.guarded(both, expect=tuple(set(self.may_be_singular(T) + self.may_be_singular(I))))
+        if st != "ok":
+            self.c["probes"]["rt64_" + st] += 1
+            if st == "raised":
+                return self.viol("C07", "inverse-raises", T, desc + ":float64", self.exc_detail(r))
+            return None
+        y, z, y2, z2 = r
+        if any(t_.dtype != torch.float64 for t_ in r):
+            return self.viol("C07", "not-inverse", T, desc + ":float64-dtype", {"dtypes": [str(t_.dtype) for t_ in r], "link": p.link, "ub": p.ub})
+        mag = max(1.0, float(y.abs().max()), float(y2.abs().max()))
+        err = max(float((z - x).abs().max()), float((z2 - x).abs().max()))
+        bound = 1e-11 * (1 + cond) * mag
+        self.c["checks"]["roundtrip_float64"] += 1
+        q = err / ((1 + cond) * mag)
+        self.c["probes"]["rt64_err_over_cond:" + next(lbl for lim, lbl in ((1e-15, "<=1e-15"), (1e-14, "<=1e-14"), (1e-13, "<=1e-13"), (1e-12, "<=1e-12"), (1e-11, "<=1e-11"), (float("inf"), ">1e-11")) if q <= lim)] += 1
+        if not (err <= bound):
+            return self.viol("C07", "not-inverse", T, desc + ":float64", {"err": err, "bound": bound, "unit": "cube", "link": p.link, "ub": p.ub, "after_change": p.changed_since})
+        return None
+
     def op_roundtrip(self, op) -> StepResult:
         idx = int(op["pair"])
         if idx >= len(self.pairs):
@@ -2766,6 +2833,11 @@ class _Ops:
         if p.changed_since:
             self.c["checks"]["roundtrip_after_change"] += 1
             self.nontrivial = True
+        if lin_only:
+            v64 = self._roundtrip_float64(T, I, x0, cond, desc, p)
+            if v64 is not None:
+                out.violations.append(v64)
+                return out
         for order, err in (("I(T(x))", e1), ("T(I(x))", e2)):
             if not (err <= bound):
                 out.violations.append(self.viol("C07", "not-inverse", T, desc + ":" + order, {"err": err, "bound": bound, "unit": unit, "link": p.link, "ub": p.ub, "after_change": p.changed_since}))
